@@ -107,8 +107,18 @@ Proof.
     try (simpl in Lu; lia);
     try (split_goal; first [reflexivity | assumption | apply forallb_item1; [reflexivity|assumption]]).
   rewrite wfb_Pow in Wu. split_wf Wu. split_goal; try assumption; try reflexivity.
-  simpl forallb. cbn [snd]. rewrite W1, W0, W. reflexivity.
+  cbn [forallb snd]. rewrite W1, W0, W. reflexivity.
 Qed.
+
+Lemma flatten_EPow_neg : forall a b',
+  flatten (EPow a (ENeg b')) =
+  if 4 <=? elevel b' then pow_cons (wrap 5 a (flatten a)) true (flatten b')
+  else pow_cons (wrap 5 a (flatten a)) false (wrap 4 (ENeg b') (flatten (ENeg b'))).
+Proof. reflexivity. Qed.
+
+Lemma flatten_EPow_other : forall a b, match b with ENeg _ => False | _ => True end ->
+  flatten (EPow a b) = pow_cons (wrap 5 a (flatten a)) false (wrap 4 b (flatten b)).
+Proof. intros a b H. destruct b; try reflexivity. contradiction. Qed.
 
 Lemma flatten_good : forall e, wf_expr e = true ->
   wfb (flatten e) = true /\ tlevel (flatten e) = elevel e.
@@ -139,15 +149,15 @@ Proof.
   - apply andb_true_iff in Wf. destruct Wf as [Wa Wb].
     destruct (IHe1 Wa) as [A1 A2]. destruct (IHe2 Wb) as [B1 B2].
     simpl flatten. apply prod_snoc_wf; apply wrap_good; auto.
-  - apply andb_true_iff in Wf. destruct Wf as [Wn Wa]. apply Nat.leb_le in Wn.
+  - apply andb_true_iff in Wf. destruct Wf as [Wn Wa].
     assert (G : Forall (good 3) (map (fun e => wrap 3 e (flatten e)) l)).
     { rewrite Forall_forall in *. intros t Ht. apply in_map_iff in Ht. destruct Ht as (e & <- & He).
       rewrite forallb_forall in Wa. destruct (H e He (Wa e He)). apply wrap_good; auto. }
-    simpl flatten. destruct l as [|a [|b l]]; simpl in Wn; try lia.
+    simpl flatten. destruct l as [|a [|b l]]; simpl in Wn; try discriminate.
     simpl map in *. inversion G as [|? ? [Ga1 Ga2] G']; subst.
     simpl mk_par. split; [|reflexivity]. rewrite wfb_Par.
-    apply Nat.leb_le in Ga2. rewrite Ga1, Ga2. simpl nonempty. simpl andb.
-    rewrite forallb_forall. intros t Ht. rewrite Forall_forall in G'. destruct (G' t Ht) as [G1 G2].
+    apply Nat.leb_le in Ga2. split_goal; [reflexivity|assumption|assumption|].
+    apply forallb_forall. intros t Ht. rewrite Forall_forall in G'. destruct (G' t Ht) as [G1 G2].
     apply Nat.leb_le in G2. rewrite G1, G2. reflexivity.
   - destruct (IHe Wf) as [A1 A2]. split; [|reflexivity]. simpl flatten. rewrite wfb_Neg.
     destruct (wrap_good 4 e ltac:(lia) A1 A2) as [G1 G2]. apply Nat.leb_le in G2. rewrite G1, G2. reflexivity.
@@ -157,14 +167,15 @@ Proof.
     destruct (IHe1 Wa) as [A1 A2]. destruct (IHe2 Wb) as [B1 B2].
     assert (Gb : good 5 (wrap 5 e1 (flatten e1))) by (apply wrap_good; auto).
     assert (Gw : good 4 (wrap 4 e2 (flatten e2))) by (apply wrap_good; auto).
-    simpl flatten. destruct e2; try (apply pow_cons_wf; assumption).
+    change (elevel (EPow e1 e2)) with 4.
+    destruct e2; try (rewrite flatten_EPow_other by exact I; apply pow_cons_wf; assumption).
+    rewrite flatten_EPow_neg.
     destruct (4 <=? elevel e2) eqn:C; [|apply pow_cons_wf; assumption].
     apply Nat.leb_le in C. apply pow_cons_wf; [assumption|].
     (* the exponent -b' with b' a power or an atom: the sign is absorbed by the power node *)
-    simpl in B1. rewrite wfb_Neg in B1. split_wf B1.
-    unfold wrap in B0. destruct (4 <=? elevel e2) eqn:C'; [|apply Nat.leb_nle in C'; lia].
-    split; [assumption|]. simpl in Wb.
-    unfold wrap in B1. rewrite C' in B1. apply Nat.leb_le in B1. assumption.
+    change (flatten (ENeg e2)) with (Neg (wrap 4 e2 (flatten e2))) in B1.
+    rewrite wfb_Neg in B1. split_wf B1. leb_all.
+    unfold wrap in B1, W. apply Nat.leb_le in C. rewrite C in B1, W. split; assumption.
 Qed.
 
 Theorem flatten_wf : forall e, wf_expr e = true -> wfb (flatten e) = true.
@@ -173,3 +184,273 @@ Proof. intros e H. apply flatten_good. assumption. Qed.
 (* parsing the rendering of any derivation gives back exactly its flat tree *)
 Theorem parse_render : forall e, wf_expr e = true -> parse_tokens (render e) = Some (flatten e).
 Proof. intros e H. apply parse_print, flatten_wf, H. Qed.
+
+(* ============================================================================================== *)
+(* evaluation of the flat tree = documented recursive semantics                                     *)
+(* ============================================================================================== *)
+(* same successful results (which error is reported first may differ: the implementation evaluates all
+   operands of a flat node before combining any of them) *)
+Definition okeq {A : Type} (r1 r2 : res A) : Prop := forall v, r1 = Ok v <-> r2 = Ok v.
+
+Lemma okeq_refl : forall (A : Type) (r : res A), okeq r r.
+Proof. intros A r v. reflexivity. Qed.
+
+Lemma okeq_of_eq : forall (A : Type) (r1 r2 : res A), r1 = r2 -> okeq r1 r2.
+Proof. intros; subst; apply okeq_refl. Qed.
+
+Lemma okeq_trans : forall (A : Type) (r1 r2 r3 : res A), okeq r1 r2 -> okeq r2 r3 -> okeq r1 r3.
+Proof. intros A r1 r2 r3 H1 H2 v. rewrite (H1 v). apply H2. Qed.
+
+Lemma bind_ok : forall (A B : Type) (r : res A) (f : A -> res B) v,
+  bind r f = Ok v <-> exists a, r = Ok a /\ f a = Ok v.
+Proof.
+  intros A B r f v. destruct r as [a|e]; simpl; split.
+  - intro H. exists a. auto.
+  - intros (a' & Ha & Hf). inversion Ha; subst. assumption.
+  - discriminate.
+  - intros (a' & Ha & _). discriminate.
+Qed.
+
+Lemma okeq_bind : forall (A B : Type) (r1 r2 : res A) (f g : A -> res B),
+  okeq r1 r2 -> (forall a, okeq (f a) (g a)) -> okeq (bind r1 f) (bind r2 g).
+Proof.
+  intros A B r1 r2 f g H Hf v. rewrite !bind_ok. split; intros (a & Ha & Hv); exists a; split.
+  - apply H; assumption.
+  - apply Hf; assumption.
+  - apply H; assumption.
+  - apply Hf; assumption.
+Qed.
+
+Lemma bind_assoc : forall (A B C : Type) (r : res A) (f : A -> res B) (g : B -> res C),
+  bind (bind r f) g = bind r (fun a => bind (f a) g).
+Proof. intros. destruct r; reflexivity. Qed.
+
+(* independent computations commute as far as successful results are concerned *)
+Lemma okeq_swap : forall (A B C : Type) (ra : res A) (rb : res B) (k : A -> B -> res C),
+  okeq (bind rb (fun b => bind ra (fun a => k a b))) (bind ra (fun a => bind rb (fun b => k a b))).
+Proof. intros. destruct ra, rb; simpl; try apply okeq_refl; intro v; split; discriminate. Qed.
+
+Lemma mapM_okeq : forall (A B : Type) (f g : A -> res B) (l : list A),
+  Forall (fun x => okeq (f x) (g x)) l -> okeq (mapM f l) (mapM g l).
+Proof.
+  intros A B f g l H. induction H as [|x l Hx Hl IH]; [apply okeq_refl|].
+  simpl. apply okeq_bind; [assumption|]. intro y. apply okeq_bind; [assumption|]. intro; apply okeq_refl.
+Qed.
+
+Lemma mapM_map : forall (A B C : Type) (h : A -> B) (f : B -> res C) (l : list A),
+  mapM f (map h l) = mapM (fun x => f (h x)) l.
+Proof. intros. induction l as [|x l IH]; [reflexivity|]. simpl. rewrite IH. reflexivity. Qed.
+
+Lemma mapM_app1 : forall (A B : Type) (f : A -> res B) (l : list A) (x : A),
+  mapM f (l ++ [x]) = bind (mapM f l) (fun ys => bind (f x) (fun y => Ok (ys ++ [y]))).
+Proof.
+  intros A B f l x. induction l as [|a l IH]; simpl.
+  - destruct (f x); reflexivity.
+  - rewrite IH. destruct (f a); simpl; [|reflexivity].
+    destruct (mapM f l); simpl; [|reflexivity]. destruct (f x); reflexivity.
+Qed.
+
+Section EvalFlatten.
+  Variable E : env.
+
+  Definition aop (o : addop) : val -> val -> res val := match o with OpAdd => vadd | OpSub => vsub end.
+  Definition mop (o : mulop) : val -> val -> res val := match o with OpMul => vmul | OpDiv => vdiv end.
+
+  Lemma eval_wrap : forall need e t, eval E (wrap need e t) = eval E t.
+  Proof. intros. unfold wrap. destruct (need <=? elevel e); reflexivity. Qed.
+
+  Lemma sum_fold_snoc : forall vr acc o b,
+    sum_fold acc (vr ++ [(o, b)]) = bind (sum_fold acc vr) (fun a => aop o a b).
+  Proof.
+    induction vr as [|[o' v] vr IH]; intros acc o b; simpl.
+    - destruct o; simpl; destruct (_ acc b); reflexivity.
+    - destruct o'; simpl; [destruct (vadd acc v)|destruct (vsub acc v)]; simpl; auto.
+  Qed.
+
+  Lemma prod_fold_snoc : forall vr acc o b,
+    prod_fold acc (vr ++ [(o, b)]) = bind (prod_fold acc vr) (fun a => mop o a b).
+  Proof.
+    induction vr as [|[o' v] vr IH]; intros acc o b; simpl.
+    - destruct o; simpl; destruct (_ acc b); reflexivity.
+    - destruct o'; simpl; [destruct (vmul acc v)|destruct (vdiv acc v)]; simpl; auto.
+  Qed.
+
+  Lemma eval_sum_snoc : forall t o u,
+    okeq (eval E (sum_snoc t o u))
+         (bind (eval E t) (fun a => bind (eval E u) (fun b => aop o a b))).
+  Proof.
+    intros t o u.
+    assert (Hgen : eval E (Sum false t [(o, u)]) = bind (eval E t) (fun a => bind (eval E u) (fun b => aop o a b))).
+    { simpl. destruct (eval E t) as [a|]; [|reflexivity]. simpl. destruct (eval E u) as [b|]; [|reflexivity].
+      simpl. destruct o; simpl; destruct (_ a b); reflexivity. }
+    destruct t; try (apply okeq_of_eq; exact Hgen).
+    (* t is itself a flat sum: the new operand is appended *)
+    clear Hgen. cbn [sum_snoc].
+    change (eval E (Sum lead t (rest ++ [(o, u)]))) with
+      (bind (eval E t) (fun vf =>
+       bind (mapM (fun p : addop * tree => bind (eval E (snd p)) (fun v => Ok (fst p, v))) (rest ++ [(o, u)]))
+            (fun vr => sum_fold vf vr))).
+    change (eval E (Sum lead t rest)) with
+      (bind (eval E t) (fun vf =>
+       bind (mapM (fun p : addop * tree => bind (eval E (snd p)) (fun v => Ok (fst p, v))) rest)
+            (fun vr => sum_fold vf vr))).
+    rewrite mapM_app1. cbn [fst snd].
+    destruct (eval E t) as [vf|]; [|apply okeq_refl]. cbn [bind].
+    destruct (mapM _ rest) as [vr|]; cbn [bind].
+    - destruct (eval E u) as [b|]; cbn [bind].
+      + rewrite sum_fold_snoc. apply okeq_refl.
+      + destruct (sum_fold vf vr); cbn [bind]; intro v; split; discriminate.
+    - apply okeq_refl.
+  Qed.
+
+  Lemma eval_prod_snoc : forall t o u,
+    okeq (eval E (prod_snoc t o u))
+         (bind (eval E t) (fun a => bind (eval E u) (fun b => mop o a b))).
+  Proof.
+    intros t o u.
+    assert (Hgen : eval E (Prod t [(o, u)]) = bind (eval E t) (fun a => bind (eval E u) (fun b => mop o a b))).
+    { simpl. destruct (eval E t) as [a|]; [|reflexivity]. simpl. destruct (eval E u) as [b|]; [|reflexivity].
+      simpl. destruct o; simpl; destruct (_ a b); reflexivity. }
+    destruct t; try (apply okeq_of_eq; exact Hgen).
+    clear Hgen. cbn [prod_snoc].
+    change (eval E (Prod t (rest ++ [(o, u)]))) with
+      (bind (eval E t) (fun vf =>
+       bind (mapM (fun p : mulop * tree => bind (eval E (snd p)) (fun v => Ok (fst p, v))) (rest ++ [(o, u)]))
+            (fun vr => prod_fold vf vr))).
+    change (eval E (Prod t rest)) with
+      (bind (eval E t) (fun vf =>
+       bind (mapM (fun p : mulop * tree => bind (eval E (snd p)) (fun v => Ok (fst p, v))) rest)
+            (fun vr => prod_fold vf vr))).
+    rewrite mapM_app1. cbn [fst snd].
+    destruct (eval E t) as [vf|]; [|apply okeq_refl]. cbn [bind].
+    destruct (mapM _ rest) as [vr|]; cbn [bind].
+    - destruct (eval E u) as [b|]; cbn [bind].
+      + rewrite prod_fold_snoc. apply okeq_refl.
+      + destruct (prod_fold vf vr); cbn [bind]; intro v; split; discriminate.
+    - apply okeq_refl.
+  Qed.
+
+  Lemma eval_pow_cons : forall b sg u,
+    eval E (pow_cons b sg u) =
+    bind (eval E b) (fun vb => bind (eval E u) (fun ve =>
+    bind (if sg then vneg ve else Ok ve) (fun e' => vpow vb e'))).
+  Proof.
+    intros b sg u.
+    assert (Hgen : eval E (Pow b [(sg, u)]) =
+                   bind (eval E b) (fun vb => bind (eval E u) (fun ve =>
+                   bind (if sg then vneg ve else Ok ve) (fun e' => vpow vb e')))).
+    { simpl. destruct (eval E b) as [vb|]; [|reflexivity]. simpl. destruct (eval E u) as [ve|]; reflexivity. }
+    destruct u; try exact Hgen.
+    clear Hgen. cbn [pow_cons].
+    change (eval E (Pow b ((sg, u) :: rest))) with
+      (bind (eval E b) (fun vb =>
+       bind (mapM (fun p : bool * tree => bind (eval E (snd p)) (fun v => Ok (fst p, v))) ((sg, u) :: rest))
+            (fun vr => pow_tower vb vr))).
+    change (eval E (Pow u rest)) with
+      (bind (eval E u) (fun vb =>
+       bind (mapM (fun p : bool * tree => bind (eval E (snd p)) (fun v => Ok (fst p, v))) rest)
+            (fun vr => pow_tower vb vr))).
+    cbn [mapM fst snd].
+    destruct (eval E b) as [vb|]; [|reflexivity]. cbn [bind].
+    destruct (eval E u) as [v2|]; [|reflexivity]. cbn [bind].
+    destruct (mapM _ rest) as [vr2|]; reflexivity.
+  Qed.
+
+  Lemma eval_flatten_pow : forall a b,
+    eval E (flatten (EPow a b)) =
+    bind (eval E (flatten a)) (fun x => bind (eval E (flatten b)) (fun y => vpow x y)).
+  Proof.
+    intros a b.
+    assert (Hother : eval E (pow_cons (wrap 5 a (flatten a)) false (wrap 4 b (flatten b))) =
+                     bind (eval E (flatten a)) (fun x => bind (eval E (flatten b)) (fun y => vpow x y))).
+    { rewrite eval_pow_cons, !eval_wrap.
+      destruct (eval E (flatten a)); [|reflexivity]. simpl. destruct (eval E (flatten b)); reflexivity. }
+    destruct b; try (rewrite flatten_EPow_other by exact I; exact Hother).
+    rewrite flatten_EPow_neg. destruct (4 <=? elevel b) eqn:C; [|exact Hother].
+    rewrite eval_pow_cons, eval_wrap.
+    change (eval E (flatten (ENeg b))) with (bind (eval E (wrap 4 b (flatten b))) vneg).
+    rewrite eval_wrap.
+    destruct (eval E (flatten a)); [|reflexivity]. simpl. destruct (eval E (flatten b)); [|reflexivity].
+    simpl. destruct (vneg a1); reflexivity.
+  Qed.
+
+  Theorem eval_flatten : forall e, wf_expr e = true -> okeq (eval E (flatten e)) (denote E e).
+  Proof.
+    induction e using expr_ind'; intro Wf; simpl in Wf.
+    - apply okeq_refl.
+    - apply okeq_refl.
+    - apply andb_true_iff in Wf. destruct Wf as [_ Wa].
+      simpl. rewrite mapM_map. apply okeq_bind; [|intro; apply okeq_refl].
+      apply mapM_okeq. rewrite Forall_forall in *. rewrite forallb_forall in Wa. intros x Hx. apply H; auto.
+    - apply andb_true_iff in Wf. destruct Wf as [_ Wa].
+      simpl. rewrite mapM_map. apply okeq_bind; [|intro; apply okeq_refl].
+      apply mapM_okeq. rewrite Forall_forall in *. rewrite forallb_forall in Wa. intros x Hx. apply H; auto.
+    - simpl. apply IHe. assumption.
+    - apply andb_true_iff in Wf. destruct Wf as [Wa Wb]. simpl flatten.
+      eapply okeq_trans; [apply eval_sum_snoc|]. rewrite eval_wrap. simpl denote.
+      apply okeq_bind; [apply IHe1; assumption|]. intro x. apply okeq_bind; [apply IHe2; assumption|].
+      intro; apply okeq_refl.
+    - apply andb_true_iff in Wf. destruct Wf as [Wa Wb]. simpl flatten.
+      eapply okeq_trans; [apply eval_sum_snoc|]. rewrite eval_wrap. simpl denote.
+      apply okeq_bind; [apply IHe1; assumption|]. intro x. apply okeq_bind; [apply IHe2; assumption|].
+      intro; apply okeq_refl.
+    - apply andb_true_iff in Wf. destruct Wf as [Wa Wb]. simpl flatten.
+      eapply okeq_trans; [apply eval_prod_snoc|]. rewrite !eval_wrap. simpl denote.
+      apply okeq_bind; [apply IHe1; assumption|]. intro x. apply okeq_bind; [apply IHe2; assumption|].
+      intro; apply okeq_refl.
+    - apply andb_true_iff in Wf. destruct Wf as [Wa Wb]. simpl flatten.
+      eapply okeq_trans; [apply eval_prod_snoc|]. rewrite !eval_wrap. simpl denote.
+      apply okeq_bind; [apply IHe1; assumption|]. intro x. apply okeq_bind; [apply IHe2; assumption|].
+      intro; apply okeq_refl.
+    - apply andb_true_iff in Wf. destruct Wf as [Wn Wa].
+      destruct l as [|a [|b l]]; simpl in Wn; try discriminate.
+      assert (Hall : Forall (fun e => okeq (eval E (wrap 3 e (flatten e))) (denote E e)) (a :: b :: l)).
+      { rewrite Forall_forall in *. rewrite forallb_forall in Wa. intros x Hx. rewrite eval_wrap. apply H; auto. }
+      inversion Hall as [|? ? Ha Hall']; subst.
+      simpl flatten. cbn [mk_par].
+      change (eval E (Par (wrap 3 a (flatten a)) (wrap 3 b (flatten b) :: map (fun e => wrap 3 e (flatten e)) l)))
+        with (bind (eval E (wrap 3 a (flatten a))) (fun vf =>
+              bind (mapM (eval E) (map (fun e => wrap 3 e (flatten e)) (b :: l))) (fun vr => vpar (vf :: vr)))).
+      rewrite mapM_map.
+      change (denote E (EPar (a :: b :: l))) with
+        (bind (bind (denote E a) (fun y => bind (mapM (denote E) (b :: l)) (fun ys => Ok (y :: ys)))) vpar).
+      rewrite bind_assoc. apply okeq_bind; [assumption|]. intro y.
+      rewrite bind_assoc. apply okeq_bind; [apply mapM_okeq; assumption|]. intro ys. apply okeq_refl.
+    - simpl. rewrite eval_wrap. apply okeq_bind; [apply IHe; assumption|intro; apply okeq_refl].
+    - simpl flatten.
+      change (eval E (Sum true (wrap 1 e (flatten e)) [])) with
+        (bind (eval E (wrap 1 e (flatten e))) (fun vf => Ok vf)).
+      rewrite eval_wrap. simpl denote. intro v. rewrite <- (IHe Wf v).
+      destruct (eval E (flatten e)); simpl; reflexivity.
+    - apply andb_true_iff in Wf. destruct Wf as [Wa Wb].
+      rewrite eval_flatten_pow. simpl denote.
+      apply okeq_bind; [apply IHe1; assumption|]. intro x. apply okeq_bind; [apply IHe2; assumption|].
+      intro; apply okeq_refl.
+  Qed.
+
+  (* the composed statement: parse the rendering, evaluate, get the documented value *)
+  Theorem eval_parse_render : forall e v, wf_expr e = true ->
+    (exists t, parse_tokens (render e) = Some t /\ eval E t = Ok v) <-> denote E e = Ok v.
+  Proof.
+    intros e v Wf. rewrite <- (eval_flatten e Wf v). split.
+    - intros (t & Hp & Hv). rewrite (parse_render e Wf) in Hp. inversion Hp; subst. assumption.
+    - intro Hv. exists (flatten e). split; [apply parse_render; assumption|assumption].
+  Qed.
+
+  (* redundant parentheses never change the value *)
+  Lemma mapM_map_ext : forall (A B C : Type) (h : A -> B) (f : B -> res C) (g : A -> res C) (l : list A),
+    Forall (fun x => f (h x) = g x) l -> mapM f (map h l) = mapM g l.
+  Proof.
+    intros A B C h f g l H. induction H as [|x l Hx Hl IH]; [reflexivity|].
+    cbn [map]. change (mapM f (h x :: map h l)) with (bind (f (h x)) (fun y => bind (mapM f (map h l)) (fun ys => Ok (y :: ys)))).
+    rewrite Hx, IH. reflexivity.
+  Qed.
+
+  Theorem denote_strip_parens : forall e, denote E (strip_parens e) = denote E e.
+  Proof.
+    induction e using expr_ind'; cbn [strip_parens denote]; rewrite ?IHe, ?IHe1, ?IHe2; try reflexivity.
+    - rewrite (mapM_map_ext _ _ _ strip_parens (denote E) (denote E) _ H). reflexivity.
+    - rewrite (mapM_map_ext _ _ _ strip_parens (denote E) (denote E) _ H). reflexivity.
+    - rewrite (mapM_map_ext _ _ _ strip_parens (denote E) (denote E) _ H). reflexivity.
+  Qed.
+End EvalFlatten.
